@@ -100,7 +100,16 @@ pub fn body(dbs: Arc<Databases>, mut sess: Session, tid: usize, program: Vec<Str
             let call = sched.seq.fetch_add(1, Ordering::SeqCst);
             let _ = take_ticks();
             let client = &mut sess.client;
-            let r = std::panic::catch_unwind(std::panic::AssertUnwindSafe(|| nundb::process_request::process_request(line, &dbs, client)));
+            let r = std::panic::catch_unwind(std::panic::AssertUnwindSafe(|| match line.strip_prefix("direct-set ") {
+                // `direct-set <key> <version> <value>`: the write path below the command layer
+                // (db_ops::set_key_value on database t), whose reply names the value now stored
+                Some(rest) => {
+                    let mut it = rest.splitn(3, ' ');
+                    let (k, ver, val) = (it.next().unwrap_or("").to_string(), it.next().and_then(|v| v.parse::<i32>().ok()).unwrap_or(-1), it.next().unwrap_or("").to_string());
+                    with_db(&dbs, "t", |d| nundb::db_ops::set_key_value(k, val, ver, d, &dbs)).unwrap_or(Response::Error { msg: "no database t".into() })
+                }
+                None => nundb::process_request::process_request(line, &dbs, client),
+            }));
             let ret = sched.seq.fetch_add(1, Ordering::SeqCst);
             let resp = match r {
                 Ok(r) => resp_str(&r),
